@@ -164,7 +164,11 @@ func judgeBrackets(rc *RunCtx, cr *CheckRun, rule string) {
 
 // scenarioC10Example: Generator.Example drives Custom generator functions (with cleanups, contexts, parked waiters,
 // skips that make Custom retry) on a T that has no TB at all.
+// defaultFlags: rapid's flag values at process start
+var defaultFlags = Flags{Checks: 100, Steps: 30, Seed: 0, ShrinkTime: 30 * time.Second}
+
 func scenarioC10Example(rc *RunCtx, prog *Prog) {
+	defaultFlags.Apply()
 	t := rc.T
 	if len(prog.Customs) == 0 {
 		prog.Customs = append(prog.Customs, &CustomSpec{ID: 0, NDraw: 2, Max: 9, Vars: []int{prog.NVars, prog.NVars + 1}, SkipIf: &Cond{Var: prog.NVars, Op: OpMod, M: 3, C: 0}, Cleanup: true, Ctx: true, Park: true})
@@ -223,6 +227,8 @@ func scenarioC10Example(rc *RunCtx, prog *Prog) {
 // scenarioC10Fuzz: the MakeFuzz entry point with arbitrary bytes (outside any bubble: a real *testing.T is needed).
 func scenarioC10Fuzz(rc *RunCtx, prog *Prog) {
 	t := rc.T
+	// rapid's flags are process-wide: this leg sets none of its own, so it must not inherit those of the worker's previous run
+	defaultFlags.Apply()
 	n := t.Int("c10.fz.len", 0, 400)
 	r := NewRNG(t.Draw("c10.fz.sub", 1<<30))
 	data := make([]byte, n)
